@@ -20,7 +20,8 @@ Inductive effect :=
 | EInc (m : nat) (ls : tuple) (d : Z)
 | ESet (m : nat) (ls : tuple) (v : dval)
 | EDel (m : nat) (ls : tuple)
-| EExpire (m : nat) (ls : tuple) (e : Z).
+| EExpire (m : nat) (ls : tuple) (e : Z)
+| EFail.   (* an instruction that raises a runtime error whatever the state (e.g. strptime on text that does not parse) *)
 
 (* vmHandle: contentHash and the VM's metric table (object id, descriptor) *)
 Record handle := mkh { h_src : N; h_objs : list (N * decl) }.
@@ -184,6 +185,7 @@ Definition exec_effect (h : pheap) (objs : list (N * decl)) (e : effect) (now : 
                     (lv_upd ls (fun x => mkslv (sl_labels x) (sl_datum x) ex) (obj_lvs h o)))
       | None => None
       end)
+  | EFail => None
   end.
 
 Fixpoint exec_effects (h : pheap) (objs : list (N * decl)) (es : list effect) (now : Z) : pheap * bool :=
